@@ -66,6 +66,15 @@ fn expected_json(m: &PL) -> Value {
     })
 }
 
+/// `have` contains every key of `want` (recursively, objects only) with an equal value
+fn json_contains(have: &Value, want: &Value) -> bool {
+    match (have, want) {
+        (Value::Object(h), Value::Object(w)) => w.iter().all(|(k, v)| h.get(k).map_or(false, |x| json_contains(x, v))),
+        (Value::Array(h), Value::Array(w)) => h.len() == w.len() && h.iter().zip(w.iter()).all(|(a, b)| json_contains(a, b)),
+        (a, b) => a == b,
+    }
+}
+
 fn ids_arg(r: &mut Rng, n: usize) -> (Vec<usize>, &'static str) {
     // valid / duplicated / empty / out of range
     match r.below(8) {
@@ -381,7 +390,8 @@ impl C11 {
             }
         };
         let val: Value = serde_json::from_str(&text).unwrap_or(Value::Null);
-        ctx.check(val == expected_json(m), "serde/documented-field-names/value/any", || json!({"log": log, "observed": val, "expected": expected_json(m)}));
+        // every documented key must be present with the documented value (further keys are not judged)
+        ctx.check(json_contains(&val, &expected_json(m)), "serde/documented-field-names/value/any", || json!({"log": log, "observed": val, "expected_keys_and_values": expected_json(m)}));
         match guard(|| serde_json::from_str::<L>(&text)) {
             Ok(Ok(back)) => {
                 ctx.check(back == *f, "serde/round-trip-unchanged/value/any", || json!({"log": log, "text": text}));
